@@ -19,7 +19,7 @@ RULE = ("cases: random recipes (all connectives, DAG sharing, integer leaves inc
         "with random constant overrides of sub-proposition ids and unknown extra keys; a fresh object per call. "
         "non-trivial: depth>=2 and (a negatively signed node or an integer leaf); distinct by canonical shape digest"
         ' Also: values outside the declared bounds, one model object with one dict mutated in place, what-if sequences on one object that name the same sub-proposition ids, Counter/defaultdict/OrderedDict interpretations, pre-fixed top nodes, hostile twins, the bounded sweep.')
-BUDGET = {"quick": (12, 260, 90), "thorough": (16, 2200, 1200)}
+BUDGET = {"quick": (12, 780, 90), "thorough": (16, 2200, 1200)}
 PYTEST = True     # thorough tier also runs the repository's own tests under these monitors
 MANDATORY = ["judged:node-value", "judged:top-present", "judged:evaluate==top-entry", "judged:variable.evaluate",
              "contract:AtLeast.evaluate_propositions", "contract:AtLeast.evaluate", "count:override-cases", "count:out-of-bounds-values", "count:same-object-same-dict-calls", "count:what-if-sequences", "count:dict-subclass-interpretations", "count:open-interval-on-compound"]
